@@ -522,6 +522,9 @@ def part_objects(run, n, n_poison, n_near):
         if 'text' not in real:
             run.case(case['repr'][:300], nontrivial=False)
             # the code refused the object; the model must not claim it is sendable
+            if ans.get('shape') and ans.get('content'):
+                run.disagree(case, {'shape': True, 'content': True}, real,
+                             'contentOkObj and shapeObj hold for an object the code refuses to encode')
             if ans.get('sendable'):
                 run.disagree(case, {'sendable': True}, real, 'model calls an object sendable that the code refuses to encode')
             continue
@@ -537,6 +540,10 @@ def part_objects(run, n, n_poison, n_near):
             run.disagree(case, {'validTree': ans['valid'], 'why': ans.get('why')}, {'lxml': v, 'msg': msg},
                          'validator: validTree vs lxml on a real document')
         run.count('sendable:%s/valid:%s' % (ans.get('sendable'), v))
+        if 'content' in ans:
+            run.count('content:%s/sendable:%s' % (ans.get('content'), ans.get('sendable')))
+            if ans.get('content') and ans.get('shape') and not ans.get('sendable'):
+                run.disagree(case, ans.get('why'), None, 'contentOkObj and shapeObj but not sendableObj (theorem C03_sendable_of_content)')
         if ans.get('sendable') and v != 'ok':
             run.disagree(case, {'sendable': True}, {'lxml': v, 'msg': msg}, 'Sendable object whose real encoding lxml rejects')
         tj = dom_to_json(real['dom'])
@@ -1055,6 +1062,24 @@ def poison_kind_requests(run):
     return out
 
 
+HEADER_EDGE = ['\t', ' ', '\x0b', '\x0c', '\x1c', '\x1f', '\x7f', '\x80', '\x85', '\xa0', '\xff', '\u0100', '\u1680', '\u2000',
+               '\u200a', '\u200b', '\u2028', '\u2029', '\u202f', '\u205f', '\u3000', '\ufeff', '\U0001F600', ':', '']
+
+
+def header_edge_requests(run):
+    """method names, namespaces and class / key names whose first or last character is at an edge of what requests
+    (`\\S`, no CR / LF) and http.client (latin-1) accept in a header value"""
+    import pywbem
+    out = []
+    for c in HEADER_EDGE:
+        for nm in (c + 'm', 'm' + c, c):
+            out.append(('InvokeMethod', 'root/cimv2', (nm, 'C', []), {}))
+            out.append(('EnumerateInstances', 'root/cimv2', (), {'ClassName': 'C', 'namespace': nm}))
+            out.append(('InvokeMethod', nm or 'x', ('m', pywbem.CIMInstanceName('C' + c, {'k' + c: 'v' + c}), []), {}))
+            out.append(('GetClass', nm, (), {'ClassName': 'C'}))
+    return out
+
+
 def wrap_requests(run, objs):
     """objects of the near-miss streams inside the operations that send them"""
     import pywbem
@@ -1272,7 +1297,7 @@ def part_requests(run, n, n_poison):
             todo.append(gen_request(run, g, gp, ops, opnames, poison) + (poison,))
         except Exception as e:  # generator produced something a pywbem constructor refuses
             run.count('gen:request_rejected:' + type(e).__name__)
-    extra = poison_kind_requests(run) + wrap_requests(run, near_miss_objects(rng, n // 12 + 40) + poison_kind_objects(run)[::7])
+    extra = poison_kind_requests(run) + header_edge_requests(run) + wrap_requests(run, near_miss_objects(rng, n // 12 + 40) + poison_kind_objects(run)[::7])
     for name, dn, args, kwargs in extra:
         todo.append((name, dn, args, kwargs, build_model(name, dn, args, kwargs), False))
     run.count('req:systematic', len(extra))
@@ -1336,7 +1361,8 @@ def part_requests(run, n, n_poison):
 # ----------------------------------------------------------------------------- part 3b: plain values, CDATA mode (oracle only)
 
 def part_values(run, n):
-    """tocimxmlstr() of CIM data type values and lists of them (no object around): oracle only"""
+    """tocimxmlstr() of CIM data type values, lists of them and objects given as values (no object around): model
+    `tocimxmlValue` vs the real function, plus the oracle"""
     import pywbem
     rng = run.rng
     gp = PGen(rng, poison=0.1)
@@ -1347,17 +1373,50 @@ def part_values(run, n):
         ty = rng.choice(cimgen.TYPES)
         vals.append(gp.atom(ty) if rng.random() < 0.5 else [gp.atom(ty) for _ in range(rng.choice([0, 1, 3]))] +
                     ([None] if rng.random() < 0.2 else []))
-    for v in vals:
+    # also the objects tocimxml() accepts as a value: object names, instances, classes
+    for _ in range(n // 10):
+        vals.append(rng.choice([gp.instancename, gp.classname, gp.instance, gp.klass])())
+        vals.append([rng.choice([gp.instancename, gp.instance, gp.klass])(), 'x'])      # objects are not atomic: TypeError
+    reqs, idx, outs = [], [], []
+    for i, v in enumerate(vals):
         case = {'type': 'value', 'repr': repr(v)[:500], 'pickle': pickled(v)}
         try:
             text = pywbem.tocimxmlstr(v)
+            real = {'ok': text}
         except Exception as e:
-            run.count('values:local_exception:' + type(e).__name__)
-            run.case(['value', type(e).__name__], nontrivial=False)
+            real = {'exc': type(e).__name__}
+        outs.append((case, real))
+        try:
+            T = cimproto.Tables()
+            vj = cimproto.val_to_json(list(v) if isinstance(v, tuple) else v, T)
+            reqs.append({'op': 'val', 'val': vj, 'codec': T.to_json()})
+            idx.append(i)
+        except Exception:  # noqa: not representable in the protocol: oracle only
+            run.count('values:oracle_only')
+    answers = dict(zip(idx, common.run_driver(PROP, reqs))) if reqs else {}
+    for i, (case, real) in enumerate(outs):
+        v = vals[i]
+        if 'ok' in real:
+            run.count('values:emitted')
+            run.case(['value', real['ok'][:200]], nontrivial=True)
+            oracle_document(run, 'tocimxmlstr(value)', real['ok'], case, features(v), {'obj': 'value'})
+        else:
+            run.count('values:local_exception:' + real['exc'])
+            run.case(['value', real['exc']], nontrivial=False)
+        ans = answers.get(i)
+        if ans is None:
             continue
-        run.count('values:emitted')
-        run.case(['value', text[:200]], nontrivial=True)
-        oracle_document(run, 'tocimxmlstr(value)', text, case, features(v), {'obj': 'value'})
+        if 'ok' in ans:
+            m = common.from_cps(ans['ok']['xml'])
+            if 'ok' not in real or m != real['ok']:
+                run.disagree(case, m[:800], real, 'value: ser(tocimxmlValue v) vs tocimxmlstr(value)')
+            else:
+                verdict, msg = judge(real['ok'])
+                if ans['ok']['valid'] != (verdict == 'ok'):
+                    run.disagree(case, {'validTree': ans['ok']['valid'], 'why': ans['ok'].get('why')}, {'lxml': verdict},
+                                 'validator: validTree vs lxml on a real value document')
+        elif 'ok' in real or ans.get('exc') != real.get('exc'):
+            run.disagree(case, ans, real if 'exc' in real else real['ok'][:300], 'value: outcome class')
 
 
 def part_cdata(run, n_obj, n_req):
